@@ -163,8 +163,8 @@ def extract(src, problems):
     attempt('path_default', path_default)
 
     def fresh_dict():
-        # def matcher(path): m = match(path); if m is None: return None; d = {}; for ...: d[k] = ...; return d
-        # with no decorator on matcher or any other function of _compile_route, `match` being the compiled
+        # matcher's body is translated mechanically (gen_matcher: it builds its dictionary in the call and returns it);
+        # here: no decorator on matcher or any other function of _compile_route, `match` being the compiled
         # pattern's bound method (checked by compile_extra_args), and no cache import used in the module
         inner = [n for n in nodes if isinstance(n, (ast.FunctionDef, ast.AsyncFunctionDef, ast.Lambda)) and n is not fn]
         if fn.decorator_list or any(getattr(n, 'decorator_list', None) for n in inner):
@@ -172,16 +172,7 @@ def extract(src, problems):
         ms = [n for n in inner if isinstance(n, ast.FunctionDef) and n.name == 'matcher']
         if len(ms) != 1:
             raise ValueError('no single inner function "matcher"')
-        mt = ms[0]
-        body = mt.body
-        if not (len(body) == 5 and isinstance(body[0], ast.Assign) and isinstance(body[0].value, ast.Call)
-                and isinstance(body[0].value.func, ast.Name) and body[0].value.func.id == 'match'
-                and isinstance(body[1], ast.If) and isinstance(body[2], ast.Assign)
-                and isinstance(body[2].value, ast.Dict) and not body[2].value.keys
-                and isinstance(body[2].targets[0], ast.Name) and isinstance(body[3], ast.For)
-                and isinstance(body[4], ast.Return) and isinstance(body[4].value, ast.Name)
-                and body[4].value.id == body[2].targets[0].id):
-            raise ValueError('matcher is not "m = match(path); if ..; d = {}; for ..; return d"')
+        # (the body of matcher itself is translated: harness/c01/translate.py, gen_matcher)
         for n in ast.walk(m.tree):
             if isinstance(n, (ast.Import, ast.ImportFrom)):
                 names = [a.name for a in n.names] + [getattr(n, 'module', None) or '']
@@ -200,6 +191,9 @@ def masked_shape(src, vals):
     change of such a literal changes the fact (and the theorems stated over it), not the pin."""
     m = F.Module(src, 'pyramid/urldispatch.py')
     fn = F.strip_doc(m.find('_compile_route'))
+    for n in ast.walk(fn):      # the matcher closure is translated, not pinned
+        if isinstance(n, ast.FunctionDef) and n.name == 'matcher':
+            n.body = [ast.Pass()]
     masked = {vals[k]: k for k in ('default_hole_regex', 'remainder_group_fmt', 'anchor_suffix')}
     for n in ast.walk(fn):
         if isinstance(n, ast.Constant) and isinstance(n.value, str) and n.value in masked:
@@ -214,6 +208,11 @@ def facts(src):
     problems = []
     summary = F.check_shapes(src, os.path.join(HERE, 'pins.json'), problems)
     vals, nums = extract(src, problems)
+    from harness.c01 import translate
+    from harness.common import build
+    prog, tproblems, tsummary = translate.translate_tree(src)
+    if not tsummary.get('gen_matcher', '').startswith('translated'):
+        nums['matcher_fresh_dict'] = 0      # the closure could not be translated: its purity is not shown
     try:
         with open(os.path.join(HERE, 'pins_masked.json')) as f:
             want = json.load(f)['pyramid/urldispatch.py:_compile_route']
@@ -231,4 +230,9 @@ def facts(src):
         coq += 'Definition %s : N := %d%%N.\n' % (k, nums[k])
     summary.update(vals)
     summary.update(nums)
+    # the control-flow program regenerated from the source (second generated file: it needs the data types of
+    # Model/C01.v, which itself imports Facts_C01.v)
+    problems.extend(tproblems)
+    summary.update({'translator:' + k: v for k, v in tsummary.items()})
+    build.write_if_changed(os.path.join(build.COQ, 'Gen', 'Prog_C01.v'), prog)
     return {'coq': coq, 'summary': summary, 'problems': problems}
